@@ -1,6 +1,7 @@
 package main
 
 import (
+	"bytes"
 	"fmt"
 	"math/big"
 	"sort"
@@ -26,6 +27,30 @@ type L2Case struct {
 	Ops     []L2Op
 	Obs     []Ov
 	Results []ExecResult
+	// SenderIsExec[i]: whether the sender string of op i decodes to an address that is in the bridge
+	// executor list stored at the moment op i was executed (read from the real params, independently
+	// of the handler's own check)
+	SenderIsExec []bool
+}
+
+// senderIsExecutor decodes the sender and every stored executor with the real address codec.
+func (e *L2Env) senderIsExecutor(sender string) bool {
+	ac := e.AK.AddressCodec()
+	sb, err := ac.StringToBytes(sender)
+	if err != nil {
+		return false
+	}
+	ps, err := e.K.GetParams(e.Ctx)
+	if err != nil {
+		return false
+	}
+	for _, x := range ps.BridgeExecutors {
+		xb, err := ac.StringToBytes(x)
+		if err == nil && bytes.Equal(xb, sb) {
+			return true
+		}
+	}
+	return false
 }
 
 // snapshot the initial state into the case header
@@ -54,6 +79,7 @@ func (c *L2Case) Snapshot() {
 }
 
 func (c *L2Case) Do(o L2Op) ExecResult {
+	c.SenderIsExec = append(c.SenderIsExec, c.Env.senderIsExecutor(o.Sender))
 	r := c.Env.L2Exec(o)
 	c.Ops = append(c.Ops, o)
 	c.Results = append(c.Results, r)
